@@ -334,7 +334,7 @@ def ob_independent():
 
 
 @obligation("config/unsupported_cardinalities_rejected", kind="exhaustive", timeout=900,
-            desc="PSK(M) for every M in 2..4100 raises unless M is a power of two (>= 2); QAM(M) for every M in 2..4100 raises unless M is 4^k")
+            desc="PSK(M) for every M in -70..0 and 2..4100 raises unless M is a power of two (>= 2); QAM(M) likewise unless M is 4^k")
 def ob_reject():
     from pyphysim.modulators import fundamental as f
 
@@ -351,7 +351,8 @@ def ob_reject():
             if accepted != ok:
                 return {"class": cls.__name__, "M": M, "accepted": accepted, "supported": ok}
         return None
-    return exhaustive(({"M": M} for M in range(2, 4101)), check)
+    # 0 and negative cardinalities are unsupported as well (1 is outside the quantified domain: the pinned code builds a one-point table)
+    return exhaustive(({"M": M} for M in list(range(-70, 1)) + list(range(2, 4101))), check)
 
 
 @obligation("native/nearest_neighbour_cross_check", kind="bounded", timeout=900,
